@@ -62,11 +62,11 @@ Clauses(r) ==
              /\ \A i \in 2..np : r.passes[i].kind = "anchored"
              /\ (r.success => np >= 2)
         [] r.mode = "edelta" ->
-             \* one optimiser run per depth of the grid that has enough
-             \* points, then the final one
+             \* at most one optimiser run per depth of the grid plus the
+             \* final one (depths with too few points need none; a run whose
+             \* points were fitted before may be remembered)
              /\ np <= Len(plan)
              /\ \A i \in 1..(np - 1) : r.passes[i].kind = "scan"
-             /\ (r.success => (np >= 1 /\ r.passes[np].kind = "final"))
         [] OTHER ->
              /\ np <= Len(plan)
              /\ \A i \in 1..np : r.passes[i].kind = plan[i]
@@ -88,8 +88,16 @@ Clauses(r) ==
                               => r.scan.dopt_inside,
   C05_FinalFromPlateau |-> (r.mode = "edelta" /\ r.success)
                               => r.scan.final_lo_is_dopt,
+  \* the reported range was optimised in SOME run of this fit (the last one,
+  \* unless the implementation remembers an earlier run with these points)
   C05_ReportedRangeIsFinalMask |->
-      (r.success /\ np > 0) => (r.final_mask = r.passes[np].mask),
+      (r.success /\ np > 0)
+        => \E i \in 1..np : r.final_mask = r.passes[i].mask,
+  \* with the plateau search the reported range is [optimal depth, upper]
+  C05_ReportedRangeFromPlateau |->
+      (r.mode = "edelta" /\ r.success)
+        => r.final_mask = ExpectedMask(r.seg, r.segreq, r.xr, r.fin_lo,
+                                       r.fin_hi, FALSE),
   \* whatever happened inside (also: nothing, because the library thought
   \* the settings unchanged), the reported range is the requested one
   C05_ReportedMatchesRequest |->
